@@ -232,6 +232,10 @@ def run_batch(mod, seed, tier, runs, wall, jobs):
                             p2.kill()
                         raise HarnessError(payload)
                     results[k] = payload
+                    if payload["violations"] and os.environ.get("VERIF_NO_FAILFAST") != "1":
+                        # the answer is "violated" whatever the rest of the batch does: the
+                        # chunks already running finish, no new ones are started
+                        pending = []
             if time.monotonic() > hard_deadline:
                 for (p2, c2) in live.values():
                     p2.kill()
@@ -240,6 +244,8 @@ def run_batch(mod, seed, tier, runs, wall, jobs):
               "states": set(), "inter": set(), "nontrivial": set(), "digests": [],
               "violations": [], "known": {}, "samples": [], "skipped": 0, "capped": False}
     for r in results:
+        if r is None:
+            continue        # not started: an earlier chunk had already found a violation
         for k in ("runs", "executions", "steps", "skipped"):
             merged[k] += r[k]
         for t in ("faults", "probes", "extra", "known"):
